@@ -246,11 +246,15 @@ def run(ctx):
     ctx.cov["variant_rejected"] = {"only one virtual closing brace skipped before 'else'": bool(rv.violation)}
     if not rv.violation:
         ctx.error("vacuity: the skip-one variant preserves meaning")
+    rv2 = tlc_retry("Mods", "Mods_noifguard", workers=12, timeout=900, xmx="10g")
+    ctx.cov["variant_rejected"]["no 'if in the body, else behind the brace' clause"] = bool(rv2.violation)
+    if not rv2.violation:
+        ctx.error("vacuity: removing braces without the if/else clause preserves meaning")
     # M-gen: trees -> programs
     d = os.path.join(ctx.work.path, "spec")
     os.makedirs(d, exist_ok=True)
     shutil.copy(os.path.join(SPEC, "Mods.tla"), d)
-    open(os.path.join(d, "ModsGen.cfg"), "w").write("SPECIFICATION Spec\nCONSTANTS\n  Depth = %d\n  ChainDepth = %d\n  SkipAllVClose = TRUE\n  Emit = TRUE\n"
+    open(os.path.join(d, "ModsGen.cfg"), "w").write("SPECIFICATION Spec\nCONSTANTS\n  Depth = %d\n  ChainDepth = %d\n  SkipAllVClose = TRUE\n  IfGuard = TRUE\n  Emit = TRUE\n"
                                                     "INVARIANTS EmitTree\nCHECK_DEADLOCK FALSE\n" % ((2, 3) if quick else (2, 4)))
     rg = tlc_retry("Mods", "ModsGen", cwd=d, workers=1, timeout=3000, xmx="10g")
     if rg.error:
@@ -258,12 +262,20 @@ def run(ctx):
     trees = rg.emitted
     ctx.cov["trees_from_tlc"] = len(trees)
     # the sensitivity set of the 'skip every virtual close before else' clause, computed by TLC at depth 4
-    open(os.path.join(d, "ModsHaz.cfg"), "w").write("SPECIFICATION Spec\nCONSTANTS\n  Depth = 1\n  ChainDepth = 4\n  SkipAllVClose = FALSE\n  Emit = TRUE\n"
+    open(os.path.join(d, "ModsHaz.cfg"), "w").write("SPECIFICATION Spec\nCONSTANTS\n  Depth = 1\n  ChainDepth = 4\n  SkipAllVClose = FALSE\n  IfGuard = TRUE\n  Emit = TRUE\n"
                                                     "INVARIANTS EmitHazard\nCHECK_DEADLOCK FALSE\n")
     rh = tlc_retry("Mods", "ModsHaz", cwd=d, workers=1, timeout=1500, xmx="10g")
     if rh.error:
         ctx.error("ModsHaz: " + rh.error)
     hazard_trees = rh.emitted
+    # the sensitivity set of the 'an if in the body and an else behind the brace' clause (what the if-chain pass lacked)
+    open(os.path.join(d, "ModsHaz2.cfg"), "w").write("SPECIFICATION Spec\nCONSTANTS\n  Depth = 1\n  ChainDepth = 4\n  SkipAllVClose = TRUE\n  IfGuard = FALSE\n  Emit = TRUE\n"
+                                                     "INVARIANTS EmitHazard\nCHECK_DEADLOCK FALSE\n")
+    rh2 = tlc_retry("Mods", "ModsHaz2", cwd=d, workers=1, timeout=1500, xmx="10g")
+    if rh2.error:
+        ctx.error("ModsHaz2: " + rh2.error)
+    ifguard_trees = rh2.emitted
+    ctx.cov["ifguard_hazard_trees_from_tlc"] = len(ifguard_trees)
     ctx.cov["hazard_trees_from_tlc"] = len(hazard_trees)
     if quick:
         ctx.rng.shuffle(trees)
@@ -278,6 +290,11 @@ def run(ctx):
     for cn, ct in TREE_CFGS.items():
         obs.write(os.path.join(tmp, cn + ".cfg"), ct)
     tjobs = [(unc, tmp, i, t, "brace", "flat") for i, t in enumerate(trees)]
+    # the if/else clause is needed by every pass that removes braces: its sensitivity set under every brace option family
+    ctx.rng.shuffle(ifguard_trees)
+    for t in ifguard_trees[:250 if quick else 100000]:
+        for cn in ["brace"] + sorted(TREE_CFGS):
+            tjobs.append((unc, tmp, len(tjobs), dict(t, after=None), cn, "flat"))
     # the other brace options x conditions written over two lines: trees with at least two heads
     nested = [t for t in trees if sum(1 for x in t["tokens"] if x in ("I", "L")) >= 2]
     ctx.rng.shuffle(nested)
